@@ -25,7 +25,7 @@ pub struct SatCase {
     pub mode: u8,
 }
 
-fn lookup_pattern<L: Language, N: Analysis<L>>(eg: &EGraph<L, N>, p: &Pattern<L>, subst: &Subst) -> Option<Option<AppliedId>> {
+pub fn lookup_pattern<L: Language, N: Analysis<L>>(eg: &EGraph<L, N>, p: &Pattern<L>, subst: &Subst) -> Option<Option<AppliedId>> {
     // None = pattern contains a substitution form (cannot be instantiated without inserting); Some(None) = not represented
     match p {
         Pattern::PVar(v) => Some(subst.get(v).cloned()),
